@@ -49,7 +49,7 @@ Inductive Blocks : Z -> Z -> list (Z * Z) -> Prop :=
     Blocks lo hi ((level, lo) :: rest).
 
 Definition aligned (lo hi : Z) : Prop :=
-  exists j, 0 <= j /\ (2 ^ j | lo) /\ hi - lo < 2 ^ j.
+  exists j, 0 <= j /\ (2 ^ j | lo) /\ hi - lo <= 2 ^ j.
 
 Lemma land_pow2_divide lo j l :
   0 <= l <= j -> (2 ^ j | lo) -> Z.land lo (2 ^ l - 1) = 0.
@@ -64,7 +64,7 @@ Lemma pow2_lt_inv a b : 0 <= a -> 0 <= b -> 2 ^ a < 2 ^ b -> a < b.
 Proof. intros Ha Hb H. apply (Z.pow_lt_mono_r_iff 2); lia. Qed.
 
 Lemma sub_tree_split_spec fuel : forall lo hi j,
-  0 <= lo <= hi -> hi <= 2 ^ 62 -> 0 <= j -> (2 ^ j | lo) -> hi - lo < 2 ^ j ->
+  0 <= lo <= hi -> hi <= 2 ^ 62 -> 0 <= j -> (2 ^ j | lo) -> hi - lo <= 2 ^ j ->
   hi - lo < 2 ^ Z.of_nat fuel ->
   exists bs, sub_tree_split fuel lo hi = Ok bs /\ Blocks lo hi bs.
 Proof.
@@ -76,7 +76,8 @@ Proof.
     assert (H63 : 2 ^ 62 + 1 <= 2 ^ 63) by (vm_compute; discriminate).
     destruct (maxpow2_spec (hi - lo + 1) ltac:(lia)) as [l [E [Hl Hb]]].
     rewrite E.
-    assert (Hlj : l < j) by (apply pow2_lt_inv; lia).
+    assert (Hlj : l <= j).
+    { destruct (Z_le_gt_dec l j); [assumption|]. assert (2 ^ j < 2 ^ l) by (apply pow2_lt; lia). lia. }
     rewrite (land_pow2_divide lo j l) by (try lia; assumption).
     rewrite Z.eqb_refl.
     assert (Hlf : l < Z.of_nat (S fuel)) by (apply pow2_lt_inv; lia).
@@ -117,6 +118,9 @@ Proof.
   - destruct (Z.eq_dec hi 0) as [->|Hx]; [cbn; lia|].
     pose proof (Z.log2_spec hi ltac:(lia)) as [_ Hs]. unfold Z.succ in Hs. lia.
 Qed.
+
+Lemma pow2_divide a b : 0 <= a <= b -> (2 ^ a | 2 ^ b).
+Proof. intros H. exists (2 ^ (b - a)). rewrite <- Z.pow_add_r by lia. f_equal. lia. Qed.
 
 Lemma Blocks_lo_le lo hi bs : Blocks lo hi bs -> lo <= hi.
 Proof. induction 1; [lia|]. pose proof (pow2_pos level H). lia. Qed.
